@@ -113,4 +113,58 @@ theorem multAtom_closed : ∀ {p c : IExp}, isBodyI p = true → isAtomPow c = t
   | sub u v _ _ => intro c hp; simp [isBodyI, isAtomPow] at hp
   | neg u _ => intro c hp; simp [isBodyI, isAtomPow] at hp
 
+/-- `norm_mult_monomial_wo_coeff` keeps the body shape. -/
+theorem multWo_closed {a : IExp} (ha : isBodyI a = true) : ∀ {q : IExp}, isBodyI q = true →
+    isBodyI (multWo a q) = true := by
+  intro q
+  induction q with
+  | mul b c ihb _ =>
+    intro hq
+    simp only [isBodyI, Bool.and_eq_true, beq_iff_eq] at hq
+    simp only [multWo]
+    exact (multAtom_closed (ihb hq.1.2) hq.1.1).1
+  | pow x e _ =>
+    intro hq
+    simp only [multWo]
+    exact (multAtom_closed ha (by simpa [isBodyI] using hq)).1
+  | atom i s => intro hq; simp [isBodyI, isAtomPow] at hq
+  | num z => intro hq; simp [isBodyI, isAtomPow] at hq
+  | add u v _ _ => intro hq; simp [isBodyI, isAtomPow] at hq
+  | sub u v _ _ => intro hq; simp [isBodyI, isAtomPow] at hq
+  | neg u _ => intro hq; simp [isBodyI, isAtomPow] at hq
+
+theorem isMonoI_cases {m : IExp} (h : isMonoI m = true) :
+    (∃ z, m = num z ∧ z ≠ 0) ∨ (∃ c b, m = mul (num c) b ∧ c ≠ 0 ∧ isBodyI b = true) := by
+  cases m with
+  | num z => left; exact ⟨z, rfl, by simpa [isMonoI] using h⟩
+  | mul x b =>
+    cases x with
+    | num c =>
+      right
+      simp only [isMonoI, Bool.and_eq_true, decide_eq_true_eq] at h
+      exact ⟨c, b, rfl, h.1, h.2⟩
+    | _ => simp [isMonoI] at h
+  | _ => simp [isMonoI] at h
+
+theorem body_not_num {b : IExp} (h : isBodyI b = true) : ∀ z, b ≠ num z := by
+  intro z e; subst e; simp [isBodyI, isAtomPow] at h
+
+/-- `norm_mult_monomial`: the product of two monomials is a monomial. -/
+theorem multMono_closed {x y : IExp} (hx : isMonoI x = true) (hy : isMonoI y = true) :
+    isMonoI (multMono x y) = true := by
+  rcases isMonoI_cases hx with ⟨c, rfl, hc⟩ | ⟨c, b1, rfl, hc, hb1⟩ <;>
+    rcases isMonoI_cases hy with ⟨d, rfl, hd⟩ | ⟨d, b2, rfl, hd, hb2⟩
+  · simp only [multMono, isMonoI, decide_eq_true_eq]; exact Int.mul_ne_zero hc hd
+  · simp only [multMono, isMonoI, Bool.and_eq_true, decide_eq_true_eq]
+    exact ⟨Int.mul_ne_zero hc hd, hb2⟩
+  · simp only [multMono, isMonoI, Bool.and_eq_true, decide_eq_true_eq]
+    exact ⟨Int.mul_ne_zero hd hc, hb1⟩
+  · have h1 := body_not_num hb1
+    have h2 := body_not_num hb2
+    cases b2 with
+    | num z => exact absurd rfl (h2 z)
+    | _ =>
+      simp only [multMono, isMonoI, Bool.and_eq_true, decide_eq_true_eq]
+      exact ⟨Int.mul_ne_zero hc hd, multWo_closed hb1 hb2⟩
+
 end Holpy.C10.IntN
